@@ -18,6 +18,13 @@ func (v *FnVC) call(fr *frame, st *State, x ssa.CallInstruction) Val {
 		if cal := x.Common().StaticCallee(); cal != nil {
 			k := FuncKey(cal)
 			st.ghost["called#"+k] = tTrue
+			if cal.Signature.Results().Len() > 0 {
+				if _, isPtr := res.(PtrV); !isPtr {
+					for i, t := range flatten(v.scalarizeVal(res)) {
+						st.ghost[fmt.Sprintf("res#%s#%d", k, i)] = t
+					}
+				}
+			}
 			sig := cal.Signature.Results()
 			if n := sig.Len(); n > 0 && isErrorType(sig.At(n-1).Type()) {
 				var ev Val = res
@@ -308,7 +315,7 @@ func (v *FnVC) applyContract(fr *frame, st *State, con *Contract, callee *ssa.Fu
 	}
 	if fr.top && len(con.Ensures) > 0 {
 		// vacuity guard: the assumed postconditions must be consistent with what is known at the call
-		v.addObl("COVER-call", calleeShort(callee), x.Pos(), reach, tTrue, nil, "sat")
+		v.addObl("CANARY", "false-after-"+calleeShort(callee), x.Pos(), reach, tTrue, nil, "notunsat")
 	}
 	return res
 }
@@ -413,6 +420,15 @@ func (v *FnVC) heapDeps(callee *ssa.Function) []famSort {
 				out = append(out, famSort{f, s})
 			}
 		}
+	}
+	if con := v.w.Contracts.ByFunc[callee]; con != nil && con.ReadsModel {
+		var keep []famSort
+		for _, fs := range out {
+			if strings.Contains(fs.name, "#dsl.") || strings.Contains(fs.name, "#*dsl.") || strings.Contains(fs.name, "]dsl.") {
+				keep = append(keep, fs)
+			}
+		}
+		out = keep
 	}
 	sortFamSorts(out)
 	v.depsCache[callee] = out
